@@ -27,7 +27,9 @@ def strategy(tier):
 
     hist = ["measure", "measure", "measure", "op", "kraus", "struct", "comp", "resize"]
     return st.one_of(S.program_case(["measure", "measure", "measure", "op"], max_steps=3), S.program_case(hist, max_steps=5, min_steps=2),
-                     S.lifecycle_case(tail_kinds=("measure", "measure", "resize", "op"), max_tail=3))
+                     S.lifecycle_case(tail_kinds=("measure", "measure", "resize", "op"), max_tail=3),
+                     S.survivor_case(touches=("resize", "fockop", "measure", "op"), max_touch=2, finals=("measure",)),
+                     S.survivor_case(touches=("resize", "fockop"), max_touch=2, finals=("measure",)))
 
 
 def run_case(case):
